@@ -51,6 +51,16 @@ CHECKS.update({
                "Inputs follow the callers' convention (nic keys present); three enumerated topologies instead of random networks."),
 })
 
+def e4(text):
+    return ("parsemc", "exhaustive enumeration of parser inputs over a finite family with independent oracles on the real parser's output", text,
+            "Exhaustive over the stated finite input family (suite sets x groups x vm restrictions x worker sets), not over all restriction strings; trusted: virttest's Cartesian parser; mini-suite keeps the shipped sets/groups/nets/vms configs.", "§2.4, §4")
+
+CHECKS.update({
+    "C06": e4("Each input is parsed up front and lazily (real dry-run traversal); an own graph walk checks: acyclic, one starting node reaching every node, every dependency recorded on both ends with equal object sets, unique identities and names, per required (object, state) exactly one parent of the same worker and object variant producing exactly that state, one network object first, vm objects = vms parameter, clone sources not runnable."),
+    "C07": e4("For every composite node and object the declared get restriction is resolved by an own implementation of the Cartesian , .. . operators over the flat variants of the set `all` (filtered by the producers' own vm restrictions); each attached parent must be the composition of a declared producer with the same object variant and worker, every declared producer must be represented, multi-producer dependencies must be cloned once per producer with cloned dependants, and internal setup is represented once per worker."),
+    "C09": e4("For every pair of workers each equivalent node exists unless the worker's own restrictions exclude it, has the same dependencies, is linked both ways and shares the four visit registers (object identity); the lazily expanded graph (real dry-run traversal) is a sub-graph of the complete parse with identical dependencies covering every test; two parses of one input are equal. Lazy expansion under other schedules is exercised by the traversal checks C01-C05."),
+})
+
 PLANNED = {}
 
 
